@@ -231,7 +231,7 @@ def run(ctx):
     jobs = []
     runs = [
         # (label, tick, PSet, SSet, MaxM, OffSet, apis)
-        ("decimal literals 0.01-grid", "0.01", "{10, 20, 30, 5, 1, 25, 7}", "{0, 10, -30, 100}", 12 if quick else 40, "{0, 2}", apis_all),
+        ("decimal literals 0.01-grid", "0.01", "{10, 20, 30, 5, 1, 25, 7}", "{0, 10, -30, 100, 250000}", 12 if quick else 40, "{0, 2}", apis_all),
         ("coarser tick 0.05", "0.05", "{1, 2, 3, 7}", "{0, -6, 20}", 9 if quick else 30, "{0, 1, 3}", apis_all),
     ]
     if not quick:
